@@ -6,6 +6,7 @@
  "mode": "dfcc", "enforce": "stringdecl/stringdecl_contract",
  "replace_contracts": {"mapkey": "mapkey_contract"},
  "kind": "proof",
+ "unwind": 12,
  "timeout": 120,
  "expects": ["postcondition", "precondition", "assertion_verif"],
  "assumes": ["the string pool (map.c) is taken by contract/stub: mapkey builds a key over (s, n); mapput returns the slot of the key, which holds NULL or the declaration stored earlier under a key with the same n bytes (that is MAP.putget.bnd's claim)",
